@@ -118,7 +118,10 @@ fn main() {
         Some("c20") => c20::main(tier(args.get(1))),
         Some("c18") => c18::main(tier(args.get(1))),
         Some("c18-proc") => c18::proc_main(),
+        Some("kernel") => realkernel::main(tier(args.get(1))),
+        Some("kernel-case") => realkernel::case_main(),
         Some("c20-batch") => c20::batch_main(&args[1..]),
+        Some("c20-one") => c20::one_main(&args[1..]),
         Some("replay") => match args.get(1) {
             Some(path) => replay(path),
             None => usage(),
@@ -129,6 +132,21 @@ fn main() {
             Some("c20") => c20::selftest(),
             _ => usage(),
         },
+        Some("probe-deep") => {
+            for shape in 0..3u8 {
+                for depth in [30u32, 47] {
+                    for variant in 0..6u32 {
+                        let src = corpus::deep_shader(shape, depth, variant);
+                        let mut o = corpus::Opts::plain();
+                        o.validate = true;
+                        o.bytemuck_host = variant % 2 == 0;
+                        let out = corpus::run_job(&src, None, o);
+                        println!("shape {shape} depth {depth} variant {variant}: {}", out.brief());
+                    }
+                }
+            }
+            0
+        }
         Some("probe-gen") => {
             // debugging aid: outcome classes of generated shaders under random options
             let mut rng = rng::Rng::new(1);
